@@ -1,7 +1,11 @@
 (* C15 -- property theorems only.  The programs [lookup_prog] / [register_prog] are the instruction
    lists translated from the Python source on this run (Gen/Facts_C15.v); every theorem quantifies
    over all resolution-order oracles [sro], all initial registrations [R0] and ALL traces (any number
-   of threads, any number of steps, any interleaving; every instruction atomic). *)
+   of threads, any number of steps, any interleaving; every instruction atomic).
+   The system is also parametric in the contents of the cache key ([key_mode], regenerated fact
+   [cache_key_mode]): the theorems below are for [KeyFull] (the key contains the view classifier); for
+   [KeyTriad] see C15_lookup_fresh_ordinary_only_partial / C15_lookup_fresh_KeyTriad_refuted at the end,
+   and C15_lookup_fresh_current(_refuted) for which of them applies to the tree at hand. *)
 From Coq Require Import List NArith Bool.
 Import ListNotations.
 Require Import Verif.Lib.Wire Verif.Lib.C15Prog Verif.Gen.Facts_C15 Verif.Model.C15 Verif.Proofs.C15.
@@ -18,7 +22,7 @@ Print Assumptions C15_facts_programs.
    cache equals lookup_all of the registrations and is non-empty, and every in-flight lookup that
    holds the current dictionary has partial results consistent with the registrations *)
 Theorem C15_cache_inv : forall sro R0 tr,
-  let st := exec sro lookup_prog register_prog tr (init R0) in
+  let st := exec sro KeyFull lookup_prog register_prog tr (init R0) in
   quietb st = true ->
   (forall k vs, dget (heap st (cur st)) k = Some vs -> vs = lookup_all sro (R st) k /\ vs <> []) /\
   (forall i t vs, threads st i = Some t -> tkind t = KLookup -> cont t <> [] ->
@@ -33,10 +37,10 @@ Print Assumptions C15_cache_inv.
    before (tr1: identical or different lookups, cold or warm cache, lookups still in flight) and
    whatever other threads do meanwhile (tr2) *)
 Theorem C15_lookup_fresh : forall sro R0 tr1 k tr2,
-  let st1 := exec sro lookup_prog register_prog tr1 (init R0) in
-  let st2 := exec sro lookup_prog register_prog (SpawnLookup k :: tr2) st1 in
+  let st1 := exec sro KeyFull lookup_prog register_prog tr1 (init R0) in
+  let st2 := exec sro KeyFull lookup_prog register_prog (SpawnLookup k :: tr2) st1 in
   quietb st1 = true ->
-  reg_free sro lookup_prog register_prog st1 (SpawnLookup k :: tr2) = true ->
+  reg_free sro KeyFull lookup_prog register_prog st1 (SpawnLookup k :: tr2) = true ->
   exists t, threads st2 (ntid st1) = Some t /\ tkind t = KLookup /\ tkey t = k /\
             (cont t = [] -> tres t = Some (lookup_all sro (R st1) k)).
 Proof. exact lookup_fresh. Qed.
@@ -46,13 +50,13 @@ Print Assumptions C15_lookup_fresh.
    register happens -- lookups may be in progress across the registration -- and once no registration
    is in progress (so i has cleared the cache) every lookup that starts sees the NEW registrations *)
 Theorem C15_no_stale_after_register : forall sro R0 tr0 i ti trm k tr2,
-  let st0 := exec sro lookup_prog register_prog tr0 (init R0) in
-  let st1 := exec sro lookup_prog register_prog (Step i :: trm) st0 in
-  let st2 := exec sro lookup_prog register_prog (SpawnLookup k :: tr2) st1 in
+  let st0 := exec sro KeyFull lookup_prog register_prog tr0 (init R0) in
+  let st1 := exec sro KeyFull lookup_prog register_prog (Step i :: trm) st0 in
+  let st2 := exec sro KeyFull lookup_prog register_prog (SpawnLookup k :: tr2) st1 in
   threads st0 i = Some ti -> tkind ti = KRegister -> cont ti = register_prog ->
-  reg_free sro lookup_prog register_prog (do_label sro lookup_prog register_prog st0 (Step i)) trm = true ->
+  reg_free sro KeyFull lookup_prog register_prog (do_label sro KeyFull lookup_prog register_prog st0 (Step i)) trm = true ->
   quietb st1 = true ->
-  reg_free sro lookup_prog register_prog st1 (SpawnLookup k :: tr2) = true ->
+  reg_free sro KeyFull lookup_prog register_prog st1 (SpawnLookup k :: tr2) = true ->
   exists t, threads st2 (ntid st1) = Some t /\ tkind t = KLookup /\ tkey t = k /\
             (cont t = [] -> tres t = Some (lookup_all sro (rapply (tups ti) (R st0)) k)).
 Proof. exact no_stale_after_register. Qed.
@@ -61,7 +65,7 @@ Print Assumptions C15_no_stale_after_register.
 (* misses_not_cached: no dictionary ever holds an empty answer, and when no registration is in
    progress a key whose lookup finds nothing is absent from the current cache *)
 Theorem C15_misses_not_cached : forall sro R0 tr,
-  let st := exec sro lookup_prog register_prog tr (init R0) in
+  let st := exec sro KeyFull lookup_prog register_prog tr (init R0) in
   (forall c k vs, dget (heap st c) k = Some vs -> vs <> []) /\
   (quietb st = true -> forall k, lookup_all sro (R st) k = [] -> dget (heap st (cur st)) k = None).
 Proof. exact misses_not_cached. Qed.
@@ -71,11 +75,11 @@ Print Assumptions C15_misses_not_cached.
    way: every finished lookup returned lookup_all of its key, which is the answer of every
    single-threaded run of the same lookup *)
 Theorem C15_concurrent_equals_sequential : forall sro R0 tr j t,
-  reg_free sro lookup_prog register_prog (init R0) tr = true ->
-  threads (exec sro lookup_prog register_prog tr (init R0)) j = Some t -> tkind t = KLookup -> cont t = [] ->
+  reg_free sro KeyFull lookup_prog register_prog (init R0) tr = true ->
+  threads (exec sro KeyFull lookup_prog register_prog tr (init R0)) j = Some t -> tkind t = KLookup -> cont t = [] ->
   tres t = Some (lookup_all sro R0 (tkey t)) /\
   forall n t0,
-    threads (exec sro lookup_prog register_prog (SpawnLookup (tkey t) :: repeat (Step 0) n) (init R0)) 0 = Some t0 ->
+    threads (exec sro KeyFull lookup_prog register_prog (SpawnLookup (tkey t) :: repeat (Step 0) n) (init R0)) 0 = Some t0 ->
     cont t0 = [] -> tres t = tres t0.
 Proof. exact concurrent_equals_sequential. Qed.
 Print Assumptions C15_concurrent_equals_sequential.
@@ -83,8 +87,8 @@ Print Assumptions C15_concurrent_equals_sequential.
 (* the executable expectation with which the harness judges the implementation is sound: whenever it
    constrains lookup j, the lookup of the model returns exactly that *)
 Theorem C15_expect_sound : forall sro R0 tr j vs t,
-  expect sro lookup_prog register_prog (init R0) tr (fun _ => None) j = Some vs ->
-  threads (exec sro lookup_prog register_prog tr (init R0)) j = Some t -> cont t = [] ->
+  expect sro KeyFull lookup_prog register_prog (init R0) tr (fun _ => None) j = Some vs ->
+  threads (exec sro KeyFull lookup_prog register_prog tr (init R0)) j = Some t -> cont t = [] ->
   tkind t = KLookup /\ tres t = Some vs.
 Proof. exact expect_sound. Qed.
 Print Assumptions C15_expect_sound.
@@ -93,8 +97,8 @@ Print Assumptions C15_expect_sound.
    the expectation constrains is answered by the first accepting candidate of lookup_all -- independent
    of which requests were served before *)
 Theorem C15_request_answer_sound : forall sro R0 tr j vs t tbl,
-  expect sro lookup_prog register_prog (init R0) tr (fun _ => None) j = Some vs ->
-  threads (exec sro lookup_prog register_prog tr (init R0)) j = Some t -> cont t = [] ->
+  expect sro KeyFull lookup_prog register_prog (init R0) tr (fun _ => None) j = Some vs ->
+  threads (exec sro KeyFull lookup_prog register_prog tr (init R0)) j = Some t -> cont t = [] ->
   call_view_reads_only = true /\ multiview_stateless = true /\
   request_answer tbl (tres t) = Some (first_answer tbl vs).
 Proof. exact (fun sro R0 tr j vs t tbl He Ht Hc =>
@@ -104,15 +108,15 @@ Print Assumptions C15_request_answer_sound.
 
 (* the wire glue is covered: the state reported by the scheduler of nested schedules is [exec] of the
    label trace it reports (any programs, any nested schedule, any fuel) *)
-Theorem C15_sched_sound : forall sro LP RP fuel ops st0,
-  let s := run_ops sro LP RP fuel ops (st0, [], []) in
-  sstate s = exec sro LP RP (rev (strace s)) st0.
+Theorem C15_sched_sound : forall sro km LP RP fuel ops st0,
+  let s := run_ops sro km LP RP fuel ops (st0, [], []) in
+  sstate s = exec sro km LP RP (rev (strace s)) st0.
 Proof. exact sched_sound. Qed.
 Print Assumptions C15_sched_sound.
 
 (* the lock: at most one thread is between Lock and Unlock, and it is the holder *)
 Theorem C15_lock_mutual_exclusion : forall sro R0 tr i j ti tj,
-  let st := exec sro lookup_prog register_prog tr (init R0) in
+  let st := exec sro KeyFull lookup_prog register_prog tr (init R0) in
   threads st i = Some ti -> threads st j = Some tj ->
   in_critical ti = true -> in_critical tj = true -> i = j /\ lock st = Some i.
 Proof. exact mutual_exclusion. Qed.
@@ -121,21 +125,21 @@ Print Assumptions C15_lock_mutual_exclusion.
 (* the holder releases the lock within two of its own steps, after which every thread waiting at Lock
    is enabled *)
 Theorem C15_lock_holder_releases : forall sro R0 tr i,
-  let st := exec sro lookup_prog register_prog tr (init R0) in
+  let st := exec sro KeyFull lookup_prog register_prog tr (init R0) in
   lock st = Some i ->
-  lock (exec sro lookup_prog register_prog [Step i; Step i] st) = None /\
+  lock (exec sro KeyFull lookup_prog register_prog [Step i; Step i] st) = None /\
   forall j tj rest, threads st j = Some tj -> cont tj = Lock :: rest ->
-                    enabled (exec sro lookup_prog register_prog [Step i; Step i] st) j = true.
+                    enabled (exec sro KeyFull lookup_prog register_prog [Step i; Step i] st) j = true.
 Proof. exact holder_releases. Qed.
 Print Assumptions C15_lock_holder_releases.
 
 (* no deadlock: in every reachable state with an unfinished thread some thread is enabled, and its
    step executes an instruction *)
 Theorem C15_no_deadlock : forall sro R0 tr j,
-  let st := exec sro lookup_prog register_prog tr (init R0) in
+  let st := exec sro KeyFull lookup_prog register_prog tr (init R0) in
   unfinished st j = true ->
   exists i t t', enabled st i = true /\ threads st i = Some t /\
-                 threads (do_label sro lookup_prog register_prog st (Step i)) i = Some t' /\
+                 threads (do_label sro KeyFull lookup_prog register_prog st (Step i)) i = Some t' /\
                  tpc t' = S (tpc t).
 Proof. exact no_deadlock. Qed.
 Print Assumptions C15_no_deadlock.
@@ -146,35 +150,67 @@ Print Assumptions C15_no_deadlock.
    are still fresh and misses are still never cached, over all traces.  (Removing the lock in the source
    is therefore benign for C15; the check reports it as a broken tie without a failing input.) *)
 Theorem C15_lookup_fresh_without_lock :
-  fresh_claim (lookup_with wb_nolock) register_prog /\
-  fresh_claim (lookup_with wb_nolock_split) register_prog.
+  fresh_claim KeyFull (lookup_with wb_nolock) register_prog /\
+  fresh_claim KeyFull (lookup_with wb_nolock_split) register_prog.
 Proof. exact (conj lookup_fresh_nolock lookup_fresh_nolock_split). Qed.
 Print Assumptions C15_lookup_fresh_without_lock.
 
 Theorem C15_misses_not_cached_without_lock :
-  misses_claim (lookup_with wb_nolock) register_prog /\
-  misses_claim (lookup_with wb_nolock_split) register_prog.
+  misses_claim KeyFull (lookup_with wb_nolock) register_prog /\
+  misses_claim KeyFull (lookup_with wb_nolock_split) register_prog.
 Proof. exact (conj misses_not_cached_nolock misses_not_cached_nolock_split). Qed.
 Print Assumptions C15_misses_not_cached_without_lock.
 
 (* every other value of the program parameters is refuted by a concrete schedule (also replayed on
    the implementation by the violation search) *)
-Theorem C15_lookup_fresh_Reread_refuted : ~ fresh_claim (std_lookup Reread true) (std_register Swap).
+Theorem C15_lookup_fresh_Reread_refuted : ~ fresh_claim KeyFull (std_lookup Reread true) (std_register Swap).
 Proof. exact lookup_fresh_Reread_refuted. Qed.
 Print Assumptions C15_lookup_fresh_Reread_refuted.
 
-Theorem C15_lookup_fresh_InPlace_refuted : ~ fresh_claim (std_lookup Local true) (std_register InPlace).
+Theorem C15_lookup_fresh_InPlace_refuted : ~ fresh_claim KeyFull (std_lookup Local true) (std_register InPlace).
 Proof. exact lookup_fresh_InPlace_refuted. Qed.
 Print Assumptions C15_lookup_fresh_InPlace_refuted.
 
-Theorem C15_lookup_fresh_NoClear_refuted : ~ fresh_claim (std_lookup Local true) [RegisterAdapter].
+Theorem C15_lookup_fresh_NoClear_refuted : ~ fresh_claim KeyFull (std_lookup Local true) [RegisterAdapter].
 Proof. exact lookup_fresh_NoClear_refuted. Qed.
 Print Assumptions C15_lookup_fresh_NoClear_refuted.
 
-Theorem C15_lookup_fresh_ClearFirst_refuted : ~ fresh_claim (std_lookup Local true) [Clear Swap; RegisterAdapter].
+Theorem C15_lookup_fresh_ClearFirst_refuted : ~ fresh_claim KeyFull (std_lookup Local true) [Clear Swap; RegisterAdapter].
 Proof. exact lookup_fresh_ClearFirst_refuted. Qed.
 Print Assumptions C15_lookup_fresh_ClearFirst_refuted.
 
-Theorem C15_misses_not_cached_Unguarded_refuted : ~ misses_claim (std_lookup Local false) (std_register Swap).
+Theorem C15_misses_not_cached_Unguarded_refuted : ~ misses_claim KeyFull (std_lookup Local false) (std_register Swap).
 Proof. exact misses_not_cached_Unguarded_refuted. Qed.
 Print Assumptions C15_misses_not_cached_Unguarded_refuted.
+
+(* ---- the cache key and the view classifier ----
+   full statement: fresh_claim cache_key_mode lookup_prog register_prog.  It holds iff the key contains
+   the classifier: *)
+Theorem C15_lookup_fresh_current :
+  cache_key_mode = KeyFull -> fresh_claim cache_key_mode lookup_prog register_prog.
+Proof. exact lookup_fresh_current. Qed.
+Print Assumptions C15_lookup_fresh_current.
+
+Theorem C15_lookup_fresh_current_refuted :
+  cache_key_mode = KeyTriad -> ~ fresh_claim cache_key_mode lookup_prog register_prog.
+Proof. exact lookup_fresh_current_refuted. Qed.
+Print Assumptions C15_lookup_fresh_current_refuted.
+
+(* with the key (request_iface, context_iface, view_name): an exception-view lookup and an ordinary
+   lookup of the same triad share one entry -- refuted by a concrete history (only an exception view is
+   registered; exception lookup, then ordinary lookup: answered with the exception view) *)
+Theorem C15_lookup_fresh_KeyTriad_refuted : ~ fresh_claim KeyTriad (std_lookup Local true) (std_register Swap).
+Proof. exact lookup_fresh_KeyTriad_refuted. Qed.
+Print Assumptions C15_lookup_fresh_KeyTriad_refuted.
+
+(* ... and what remains true with that key: histories in which every lookup is an ordinary one *)
+Theorem C15_lookup_fresh_ordinary_only_partial : forall sro R0 tr1 k tr2,
+  ordinary_only (tr1 ++ SpawnLookup k :: tr2) = true ->
+  let st1 := exec sro KeyTriad lookup_prog register_prog tr1 (init R0) in
+  let st2 := exec sro KeyTriad lookup_prog register_prog (SpawnLookup k :: tr2) st1 in
+  quietb st1 = true ->
+  reg_free sro KeyTriad lookup_prog register_prog st1 (SpawnLookup k :: tr2) = true ->
+  exists t, threads st2 (ntid st1) = Some t /\ tkind t = KLookup /\ tkey t = k /\
+            (cont t = [] -> tres t = Some (lookup_all sro (R st1) k)).
+Proof. exact lookup_fresh_ordinary_only_partial. Qed.
+Print Assumptions C15_lookup_fresh_ordinary_only_partial.
